@@ -1996,22 +1996,20 @@ func (r stack) traverse(indices ...int) (slice any, ok, done bool) {
 			return
 		}
 
-		// begin "walking" path of int breadcrumbs ...
-		for i := 0; i < len(indices); i++ {
+		// begin "walking" path of int breadcrumbs. Only the first
+		// breadcrumb applies to the receiver itself; every nested
+		// level consumes the next one through recursion. A failed
+		// descent ends the walk: subsequent breadcrumbs are never
+		// applied to siblings found at the current level.
+		current := indices[0] // user-facing index number w/ offset
 
-			current := indices[i] // user-facing index number w/ offset
+		if instance, _, found := r.index(current); found {
 
-			if instance, _, found := r.index(current); found {
-
-				// Begin assertion of possible traversable and non-traversable
-				// values. We'll go as deep as possible, provided each nesting
-				// instance is a Stack/Stack alias, or Condition/Condition alias
-				// containing a Stack/Stack alias value.
-				if slice, ok, done = r.traverseAssertionHandler(instance, i, indices...); !done {
-					continue
-				}
-			}
-			break
+			// Begin assertion of possible traversable and non-traversable
+			// values. We'll go as deep as possible, provided each nesting
+			// instance is a Stack/Stack alias, or Condition/Condition alias
+			// containing a Stack/Stack alias value.
+			slice, ok, done = r.traverseAssertionHandler(instance, 0, indices...)
 		}
 	}
 
